@@ -8,9 +8,11 @@ import ast
 from .. import AnalysisError, flow
 from ..fold import is_unknown
 from ..srcmodel import walk_local, norm, dotted, guards, enclosing_stmt, literals
-from . import common
+from . import common, forward
 from .layouts import layout_classes
 from .c15 import alias_roots
+
+from .c13 import lockdown
 
 META = {
     'explanation': (
@@ -23,7 +25,7 @@ META = {
         "_parse_copyall stages exactly one tract with the unmodified chunk "
         "text and a single section; fallback placeholders are the error "
         "ones. Which inputs end in the fallback is not decided."),
-    'families': ['LOCK', 'ONCE', 'TBL', 'DEFUSE'],
+    'families': ['LOCK', 'ONCE', 'TBL', 'DEFUSE', 'FORWARD', 'DEADPARAM', 'SIB-DEFAULTS'],
 }
 
 
@@ -36,6 +38,8 @@ def check(ctx):
     ctx.attempt(_staging_tables)
     ctx.attempt(_copyall)
     ctx.attempt(_fallback)
+    ctx.attempt(forward.check_all, module_suffixes=('plssdesc.plss_parse', 'plssdesc.plssdesc'))
+    ctx.attempt(lockdown, ctx.repo.func('PLSSDesc.parse'), only=('layout', 'segment'))
 
 
 def _layout_lock(ctx, cl):
